@@ -1,17 +1,18 @@
-(* C17 — the partial lattice theorems of CSV type inference (model/CsvInfer.v).
-   The full-strength statement ("the inferred type is the narrowest of Boolean < Int64 < Float64 < Utf8
-   accepting every sampled non-empty value, whatever the row order") is false for the code, because the
-   Boolean words are not valid Int64/Float64 (refuted in CsvInferProofs.v).  What is true, and proved here:
-     int_is_float                         every Int64 literal is a Float64 literal
-     candidate_is_narrowest_partial       without Boolean words among the values the candidate is the narrowest
-     candidate_all_bool                   only Boolean words / empty values: the candidate stays Boolean
-     candidate_order_irrelevant_partial   without Boolean words the candidate does not depend on the row order
-     dialect_choice_spec                  what infer_dialect = Some (Some d) means *)
+(* C17 — the lattice theorems of CSV type inference (model/CsvInfer.v), at full strength since the re-validation
+   pass of CsvSchema::infer_from_records:
+     int_is_float                  every Int64 literal is a Float64 literal
+     bool_not_number               a Boolean word is neither an Int64 nor a Float64 literal
+     candidate_is_narrowest        the inferred type of a column accepts every sampled non-empty value, and every
+                                   narrower type of Boolean < Int64 < Float64 < Utf8 rejects one of them
+     candidate_order_irrelevant    the inferred type does not depend on the row order
+     candidate_all_bool            only Boolean words / empty values: Boolean
+     schema_column_type            column j of infer_schema is col_type of the j-th fields (rectangular sample)
+     dialect_choice_spec           what infer_dialect = Some (Some d) means
+   The chain alone (col_type_old, the code before the repair) has these only without Boolean words among the
+   values: chain_inv is what it guarantees in general. *)
 From Coq Require Import NArith ZArith List Bool Arith Lia Permutation.
-From GV Require Import model.Csv model.CsvInfer.
+From GV Require Import model.Csv model.CsvInfer proofs.CsvInferProofs.
 Import ListNotations.
-
-Definition col_cand (vs : list (list N)) : cand := fold_left update vs CBool.
 
 (* ------------------------------------------------------------------ (1) Int64 literals are Float64 literals *)
 Lemma number_ok_digits : forall body ds,
@@ -33,6 +34,23 @@ Proof.
   rewrite (number_ok_digits _ _ Hs Hn). reflexivity.
 Qed.
 
+(* a Boolean word is not a number *)
+Lemma bytes_eqb_eq : forall a b, bytes_eqb a b = true -> a = b.
+Proof.
+  induction a as [|x a IH]; intros [|y b] H; try reflexivity; try discriminate H.
+  unfold bytes_eqb in H. cbn [length combine forallb fst snd] in H.
+  apply andb_prop in H. destruct H as [Hl H]. apply andb_prop in H. destruct H as [Hxy H].
+  apply N.eqb_eq in Hxy. subst y. f_equal. apply IH. unfold bytes_eqb.
+  change (S (length a) =? S (length b)) with (length a =? length b) in Hl. rewrite Hl, H. reflexivity.
+Qed.
+
+Theorem bool_not_number : forall v, is_bool v = true -> is_int v = false /\ is_float v = false.
+Proof.
+  intros v H. unfold is_bool in H. apply existsb_exists in H. destruct H as [w [Hin Heq]].
+  apply bytes_eqb_eq in Heq. subst w. unfold bool_words in Hin. cbn [In] in Hin.
+  repeat (destruct Hin as [<-|Hin]; [split; vm_compute; reflexivity|]). contradiction.
+Qed.
+
 (* ------------------------------------------------------------------ update on a non-empty value *)
 Definition update_ne (c : cand) (f : list N) : cand :=
   match c with
@@ -46,28 +64,53 @@ Definition update_ne (c : cand) (f : list N) : cand :=
 Lemma update_nonempty : forall c f, f <> [] -> update c f = update_ne c f.
 Proof. intros c f Hf. destruct f as [|a f]; [contradiction|reflexivity]. Qed.
 
-Lemma update_empty : forall c, update c [] = c.
-Proof. reflexivity. Qed.
-
-Lemma is_bool_nil : is_bool [] = false.
-Proof. reflexivity. Qed.
-
 Lemma list_nil_dec : forall (f : list N), f = [] \/ f <> [].
 Proof. intros [|a f]; [left; reflexivity|right; discriminate]. Qed.
 
-(* ------------------------------------------------------------------ (2) the candidate is the narrowest *)
-(* the invariant of the fold over the values seen so far *)
-Definition lat_inv (vs : list (list N)) (c : cand) : Prop :=
+(* ------------------------------------------------------------------ (2) what the chain alone guarantees *)
+(* the invariant of the fold over the values seen so far: every value is accepted OR is a Boolean word; every
+   narrower candidate was left because of some value *)
+Definition chain_inv (vs : list (list N)) (c : cand) : Prop :=
   c <> CTimestamp /\
-  (forall v, In v vs -> v <> [] -> is_valid c v = true) /\
+  (forall v, In v vs -> v <> [] -> is_valid c v = true \/ is_bool v = true) /\
   (forall c', (cand_rank c' < cand_rank c)%nat -> c' <> CTimestamp ->
               exists v, In v vs /\ v <> [] /\ is_valid c' v = false).
 
-Lemma lat_inv_step : forall vs c v,
-  (forall w, In w vs -> is_bool w = false) -> is_bool v = false ->
-  lat_inv vs c -> lat_inv (vs ++ [v]) (update c v).
+Lemma update_ne_not_ts : forall c f, update_ne c f <> CTimestamp.
 Proof.
-  intros vs c v Hnb Hv [Hts [Hval Hnar]].
+  intros c f. destruct c; unfold update_ne;
+    repeat match goal with |- context [if ?b then _ else _] => destruct b end; discriminate.
+Qed.
+
+(* widening keeps a value accepted, except when leaving Boolean *)
+Lemma valid_widen : forall c v w, is_valid c w = true ->
+  is_valid (update_ne c v) w = true \/ is_bool w = true.
+Proof.
+  intros c v w H. destruct c; cbn [is_valid] in H.
+  - right. exact H.
+  - left. unfold update_ne. destruct (is_int v); [exact H|]. destruct (is_float v); [|reflexivity].
+    cbn [is_valid]. apply int_is_float. exact H.
+  - left. unfold update_ne. destruct (is_float v); [exact H|reflexivity].
+  - discriminate H.
+  - left. reflexivity.
+Qed.
+
+(* every candidate passed over by one update rejects the value that caused it *)
+Lemma update_skips : forall c v c', c <> CTimestamp -> c' <> CTimestamp ->
+  (cand_rank c <= cand_rank c')%nat -> (cand_rank c' < cand_rank (update_ne c v))%nat ->
+  is_valid c' v = false.
+Proof.
+  intros c v c' Hc Hc' Hle Hlt.
+  destruct c; try (exfalso; apply Hc; reflexivity);
+    destruct c'; try (exfalso; apply Hc'; reflexivity);
+    unfold update_ne in Hlt; cbn [is_valid];
+    destruct (is_bool v); destruct (is_int v); destruct (is_float v);
+    cbn [cand_rank] in Hle, Hlt; try lia; reflexivity.
+Qed.
+
+Lemma chain_inv_step : forall vs c v, chain_inv vs c -> chain_inv (vs ++ [v]) (update c v).
+Proof.
+  intros vs c v [Hts [Hval Hnar]].
   destruct (list_nil_dec v) as [He|Hne].
   - subst v. rewrite update_empty. split; [exact Hts|]. split.
     + intros w Hin Hw. apply in_app_or in Hin. destruct Hin as [Hin|[Hin|[]]].
@@ -75,185 +118,189 @@ Proof.
       * subst w. contradiction.
     + intros c' Hr Hc'. destruct (Hnar c' Hr Hc') as [w [Hin [Hw Hf]]].
       exists w. split; [apply in_or_app; left; exact Hin|]. split; assumption.
-  - rewrite (update_nonempty c v Hne).
-    assert (Hnew : In v (vs ++ [v])) by (apply in_or_app; right; left; reflexivity).
-    assert (Hold : forall c', (cand_rank c' < cand_rank c)%nat -> c' <> CTimestamp ->
-              exists w, In w (vs ++ [v]) /\ w <> [] /\ is_valid c' w = false).
-    { intros c' Hr Hc'. destruct (Hnar c' Hr Hc') as [w [Hin [Hw Hf]]].
-      exists w. split; [apply in_or_app; left; exact Hin|]. split; assumption. }
-    assert (Hwit : forall c', is_valid c' v = false ->
-              exists w, In w (vs ++ [v]) /\ w <> [] /\ is_valid c' w = false).
-    { intros c' Hf. exists v. split; [exact Hnew|]. split; assumption. }
-    assert (Hvalb : forall w, In w vs -> w <> [] -> is_valid c w = true) by exact Hval.
-    destruct c; try (exfalso; apply Hts; reflexivity); unfold update_ne.
-    + (* CBool: there is no earlier non-empty value *)
-      assert (Hnone : forall w, In w vs -> w <> [] -> False).
-      { intros w Hin Hw. pose proof (Hval w Hin Hw) as H1. cbn [is_valid] in H1.
-        rewrite (Hnb w Hin) in H1. discriminate H1. }
-      rewrite Hv.
-      destruct (is_int v) eqn:Hi; [|destruct (is_float v) eqn:Hfl].
-      * split; [discriminate|]. split.
-        -- intros w Hin Hw. apply in_app_or in Hin. destruct Hin as [Hin|[Hin|[]]].
-           ++ exfalso. exact (Hnone w Hin Hw).
-           ++ subst w. exact Hi.
-        -- intros c' Hr Hc'. destruct c'; cbn [cand_rank] in Hr; try lia.
-           apply Hwit. exact Hv.
-      * split; [discriminate|]. split.
-        -- intros w Hin Hw. apply in_app_or in Hin. destruct Hin as [Hin|[Hin|[]]].
-           ++ exfalso. exact (Hnone w Hin Hw).
-           ++ subst w. exact Hfl.
-        -- intros c' Hr Hc'. destruct c'; cbn [cand_rank] in Hr; try lia.
-           ++ apply Hwit. exact Hv.
-           ++ apply Hwit. exact Hi.
-      * split; [discriminate|]. split.
-        -- intros w Hin Hw. reflexivity.
-        -- intros c' Hr Hc'. destruct c'; cbn [cand_rank] in Hr; try lia.
-           ++ apply Hwit. exact Hv.
-           ++ apply Hwit. exact Hi.
-           ++ apply Hwit. exact Hfl.
-           ++ exfalso. apply Hc'. reflexivity.
-    + (* CInt *)
-      destruct (is_int v) eqn:Hi; [|destruct (is_float v) eqn:Hfl].
-      * split; [discriminate|]. split.
-        -- intros w Hin Hw. apply in_app_or in Hin. destruct Hin as [Hin|[Hin|[]]].
-           ++ apply Hval; assumption.
-           ++ subst w. exact Hi.
-        -- exact Hold.
-      * split; [discriminate|]. split.
-        -- intros w Hin Hw. apply in_app_or in Hin. destruct Hin as [Hin|[Hin|[]]].
-           ++ cbn [is_valid]. apply int_is_float. exact (Hval w Hin Hw).
-           ++ subst w. exact Hfl.
-        -- intros c' Hr Hc'. destruct c'; cbn [cand_rank] in Hr; try lia.
-           ++ apply Hwit. exact Hv.
-           ++ apply Hwit. exact Hi.
-      * split; [discriminate|]. split.
-        -- intros w Hin Hw. reflexivity.
-        -- intros c' Hr Hc'. destruct c'; cbn [cand_rank] in Hr; try lia.
-           ++ apply Hwit. exact Hv.
-           ++ apply Hwit. exact Hi.
-           ++ apply Hwit. exact Hfl.
-           ++ exfalso. apply Hc'. reflexivity.
-    + (* CFloat *)
-      destruct (is_float v) eqn:Hfl.
-      * split; [discriminate|]. split.
-        -- intros w Hin Hw. apply in_app_or in Hin. destruct Hin as [Hin|[Hin|[]]].
-           ++ apply Hval; assumption.
-           ++ subst w. exact Hfl.
-        -- exact Hold.
-      * split; [discriminate|]. split.
-        -- intros w Hin Hw. reflexivity.
-        -- intros c' Hr Hc'. destruct c'; cbn [cand_rank] in Hr; try lia.
-           ++ apply Hwit. exact Hv.
-           ++ apply Hold; [cbn [cand_rank]; lia|discriminate].
-           ++ apply Hwit. exact Hfl.
-           ++ exfalso. apply Hc'. reflexivity.
-    + (* CUtf8 *)
-      split; [discriminate|]. split.
-      * intros w Hin Hw. reflexivity.
-      * exact Hold.
+  - pose proof (update_valid c v Hne) as Hnew. rewrite (update_nonempty c v Hne) in *.
+    split; [apply update_ne_not_ts|]. split.
+    + intros w Hin Hw. apply in_app_or in Hin. destruct Hin as [Hin|[Hin|[]]].
+      * destruct (Hval w Hin Hw) as [H|H]; [apply valid_widen; exact H|right; exact H].
+      * subst w. left. exact Hnew.
+    + intros c' Hr Hc'.
+      destruct (Nat.lt_ge_cases (cand_rank c') (cand_rank c)) as [Hlt|Hge].
+      * destruct (Hnar c' Hlt Hc') as [w [Hin [Hw Hf]]].
+        exists w. split; [apply in_or_app; left; exact Hin|]. split; assumption.
+      * exists v. split; [apply in_or_app; right; left; reflexivity|]. split; [exact Hne|].
+        apply (update_skips c v c'); assumption.
 Qed.
 
-Lemma lat_inv_col_cand : forall vs,
-  (forall w, In w vs -> is_bool w = false) -> lat_inv vs (col_cand vs).
+Lemma chain_inv_col : forall vs, chain_inv vs (col_type_old vs).
 Proof.
-  intros vs. induction vs as [|v vs IH] using rev_ind; intros Hnb.
-  - unfold col_cand. cbn [fold_left]. split; [discriminate|]. split.
+  intros vs. induction vs as [|v vs IH] using rev_ind.
+  - unfold col_type_old. cbn [fold_left]. split; [discriminate|]. split.
     + intros v [].
     + intros c' Hr. cbn [cand_rank] in Hr. lia.
-  - unfold col_cand. rewrite fold_left_app. cbn [fold_left].
-    apply lat_inv_step.
-    + intros w Hin. apply Hnb. apply in_or_app. left. exact Hin.
-    + apply Hnb. apply in_or_app. right. left. reflexivity.
-    + apply IH. intros w Hin. apply Hnb. apply in_or_app. left. exact Hin.
+  - unfold col_type_old. rewrite fold_left_app. cbn [fold_left]. apply chain_inv_step. exact IH.
 Qed.
 
-(* the strong form: a narrower candidate always has a counterexample among the values *)
-Theorem candidate_is_narrowest_strong : forall vs,
-  Forall (fun v => is_bool v = false) vs ->
-  let c := col_cand vs in
+(* ------------------------------------------------------------------ (3) the re-validation pass *)
+Lemma revalidate_utf8 : forall vs, fold_left revalidate vs CUtf8 = CUtf8.
+Proof.
+  induction vs as [|v vs IH]; [reflexivity|]. cbn [fold_left]. destruct v; cbn [revalidate is_valid]; exact IH.
+Qed.
+
+Lemma fold_revalidate : forall vs c,
+  fold_left revalidate vs c = if forallb (fun v => is_empty v || is_valid c v) vs then c else CUtf8.
+Proof.
+  induction vs as [|v vs IH]; intros c; [reflexivity|].
+  cbn [fold_left forallb]. destruct v as [|b v].
+  - cbn [revalidate is_empty orb andb]. apply IH.
+  - cbn [revalidate is_empty orb]. destruct (is_valid c (b :: v)); cbn [andb].
+    + apply IH.
+    + apply revalidate_utf8.
+Qed.
+
+Lemma forallb_false_exists : forall A (f : A -> bool) l, forallb f l = false -> exists x, In x l /\ f x = false.
+Proof.
+  intros A f l. induction l as [|x l IH]; intros H; [discriminate H|].
+  cbn [forallb] in H. destruct (f x) eqn:E.
+  - destruct (IH H) as [y [Hin Hy]]. exists y. split; [right; exact Hin|exact Hy].
+  - exists x. split; [left; reflexivity|exact E].
+Qed.
+
+(* FULL STATEMENT: the inferred type accepts every sampled non-empty value and is the narrowest such type *)
+Theorem candidate_is_narrowest : forall vs,
+  let c := col_type vs in
   c <> CTimestamp /\
   (forall v, In v vs -> v <> [] -> is_valid c v = true) /\
   (forall c', (cand_rank c' < cand_rank c)%nat -> c' <> CTimestamp ->
      exists v, In v vs /\ v <> [] /\ is_valid c' v = false).
 Proof.
-  intros vs Hnb. apply lat_inv_col_cand. apply Forall_forall. exact Hnb.
+  intros vs. cbv zeta. unfold col_type. rewrite fold_revalidate.
+  destruct (chain_inv_col vs) as [Hts [Hval Hnar]].
+  change (fold_left update vs CBool) with (col_type_old vs).
+  destruct (forallb (fun v => is_empty v || is_valid (col_type_old vs) v) vs) eqn:Hall.
+  - split; [exact Hts|]. split; [|exact Hnar].
+    intros v Hin Hne. rewrite forallb_forall in Hall. specialize (Hall v Hin).
+    destruct v; [contradiction|]. exact Hall.
+  - apply forallb_false_exists in Hall. destruct Hall as [v0 [Hin0 Hf0]].
+    apply orb_false_elim in Hf0. destruct Hf0 as [He0 Hv0].
+    assert (Hne0 : v0 <> []) by (intros ->; discriminate He0).
+    assert (Hb0 : is_bool v0 = true).
+    { destruct (Hval v0 Hin0 Hne0) as [H|H]; [rewrite H in Hv0; discriminate Hv0|exact H]. }
+    destruct (bool_not_number v0 Hb0) as [Hi0 Hfl0].
+    assert (Hc0 : col_type_old vs <> CBool).
+    { intros E. rewrite E in Hv0. cbn [is_valid] in Hv0. rewrite Hb0 in Hv0. discriminate Hv0. }
+    split; [discriminate|]. split; [intros; reflexivity|].
+    intros c' Hr Hc'. destruct c'; cbn [cand_rank] in Hr; try lia.
+    + apply Hnar; [|discriminate]. destruct (col_type_old vs); cbn [cand_rank]; try lia.
+      exfalso. apply Hc0. reflexivity.
+    + exists v0. split; [exact Hin0|]. split; [exact Hne0|exact Hi0].
+    + exists v0. split; [exact Hin0|]. split; [exact Hne0|exact Hfl0].
+    + exfalso. apply Hc'. reflexivity.
 Qed.
 
-Theorem candidate_is_narrowest_partial : forall vs,
-  Forall (fun v => is_bool v = false) vs ->          (* no Boolean word among the sampled values *)
-  let c := col_cand vs in
-  (forall v, In v vs -> v <> [] -> is_valid c v = true) /\
-  (forall c', (cand_rank c' < cand_rank c)%nat -> c' <> CTimestamp ->
-     (exists v, In v vs /\ v <> []) ->
-     exists v, In v vs /\ v <> [] /\ is_valid c' v = false).
+Example candidate_is_narrowest_sat : col_type [[116]; []; [49]]%N = CUtf8 /\ col_type [[49]; [50;46]]%N = CFloat.
+Proof. split; vm_compute; reflexivity. Qed.
+
+Lemma cand_rank_inj : forall a b, cand_rank a = cand_rank b -> a = b.
+Proof. intros a b H. destruct a; destruct b; try reflexivity; discriminate H. Qed.
+
+(* FULL STATEMENT: the inferred type does not depend on the row order *)
+Theorem candidate_order_irrelevant : forall vs1 vs2, Permutation vs1 vs2 -> col_type vs1 = col_type vs2.
 Proof.
-  intros vs Hnb c. destruct (candidate_is_narrowest_strong vs Hnb) as [_ [Hval Hnar]].
-  split; [exact Hval|]. intros c' Hr Hc' _. exact (Hnar c' Hr Hc').
+  intros vs1 vs2 HP.
+  pose proof (candidate_is_narrowest vs1) as H1. pose proof (candidate_is_narrowest vs2) as H2.
+  cbv zeta in H1, H2. destruct H1 as [T1 [V1 N1]]. destruct H2 as [T2 [V2 N2]].
+  apply cand_rank_inj.
+  destruct (lt_eq_lt_dec (cand_rank (col_type vs1)) (cand_rank (col_type vs2))) as [[Hlt|Heq]|Hgt].
+  - exfalso. destruct (N2 _ Hlt T1) as [v [Hin [Hne Hf]]].
+    rewrite (V1 v (Permutation_in v (Permutation_sym HP) Hin) Hne) in Hf. discriminate Hf.
+  - exact Heq.
+  - exfalso. destruct (N1 _ Hgt T2) as [v [Hin [Hne Hf]]].
+    rewrite (V2 v (Permutation_in v HP Hin) Hne) in Hf. discriminate Hf.
 Qed.
 
-(* every value empty: the candidate is still Boolean (and nothing is narrower) *)
-Theorem candidate_all_empty : forall vs,
-  Forall (fun v => v = []) vs -> col_cand vs = CBool.
-Proof.
-  intros vs H. unfold col_cand. induction H as [|v vs Hv _ IH]; [reflexivity|].
-  cbn [fold_left]. subst v. rewrite update_empty. exact IH.
-Qed.
-
-(* only Boolean words and empty values: the candidate stays Boolean *)
+(* only Boolean words and empty values (in particular: no value at all): Boolean *)
 Theorem candidate_all_bool : forall vs,
-  Forall (fun v => v = [] \/ is_bool v = true) vs -> col_cand vs = CBool.
+  Forall (fun v => v = [] \/ is_bool v = true) vs -> col_type vs = CBool.
 Proof.
-  intros vs H. unfold col_cand. induction H as [|v vs Hv _ IH]; [reflexivity|].
-  cbn [fold_left]. destruct Hv as [Hv|Hv].
-  - subst v. rewrite update_empty. exact IH.
-  - destruct (list_nil_dec v) as [He|Hne].
-    + subst v. rewrite update_empty. exact IH.
-    + rewrite (update_nonempty _ _ Hne). unfold update_ne. rewrite Hv. exact IH.
+  intros vs H.
+  assert (Hold : col_type_old vs = CBool).
+  { unfold col_type_old. induction H as [|v vs Hv _ IH]; [reflexivity|].
+    cbn [fold_left]. destruct (list_nil_dec v) as [He|Hne].
+    - subst v. rewrite update_empty. exact IH.
+    - destruct Hv as [Hv|Hv]; [contradiction|].
+      rewrite (update_nonempty _ _ Hne). unfold update_ne. rewrite Hv. exact IH. }
+  unfold col_type. change (fold_left update vs CBool) with (col_type_old vs). rewrite Hold, fold_revalidate.
+  destruct (forallb (fun v => is_empty v || is_valid CBool v) vs) eqn:Hall; [reflexivity|].
+  exfalso. apply forallb_false_exists in Hall. destruct Hall as [v [Hin Hf]].
+  rewrite Forall_forall in H. destruct (H v Hin) as [->|Hb]; [discriminate Hf|].
+  cbn [is_valid] in Hf. rewrite Hb, orb_true_r in Hf. discriminate Hf.
 Qed.
 
-(* ------------------------------------------------------------------ (3) the row order does not matter *)
-Lemma update_comm_nobool : forall c f g,
-  is_bool f = false -> is_bool g = false ->
-  update (update c f) g = update (update c g) f.
+(* ------------------------------------------------------------------ (3') columns of the schema *)
+Lemma zip_row_length : forall g cs fs, length (zip_row g cs fs) = length cs.
 Proof.
-  intros c f g Hf Hg.
-  destruct (list_nil_dec f) as [Ef|Nf]; [subst f; rewrite !update_empty; reflexivity|].
-  destruct (list_nil_dec g) as [Eg|Ng]; [subst g; rewrite !update_empty; reflexivity|].
-  rewrite (update_nonempty c f Nf), (update_nonempty c g Ng).
-  rewrite (update_nonempty _ g Ng), (update_nonempty _ f Nf).
-  pose proof (int_is_float f) as If. pose proof (int_is_float g) as Ig.
-  destruct c; unfold update_ne; rewrite ?Hf, ?Hg;
-    destruct (is_int f); destruct (is_float f); destruct (is_int g); destruct (is_float g);
-    rewrite ?Hf, ?Hg; try reflexivity;
-    try (specialize (If eq_refl); discriminate If);
-    try (specialize (Ig eq_refl); discriminate Ig).
+  intros g. induction cs as [|c cs IH]; intros fs; [reflexivity|].
+  destruct fs as [|f fs]; [reflexivity|]. cbn [zip_row length]. rewrite IH. reflexivity.
 Qed.
 
-Lemma fold_update_perm : forall vs1 vs2, Permutation vs1 vs2 ->
-  Forall (fun v => is_bool v = false) vs1 ->
-  forall c, fold_left update vs1 c = fold_left update vs2 c.
+Lemma zip_row_nth : forall g cs fs j, length fs = length cs -> (j < length cs)%nat ->
+  nth j (zip_row g cs fs) CUtf8 = g (nth j cs CUtf8) (nth j fs []).
 Proof.
-  intros vs1 vs2 HP. induction HP as [|x l l' HP IH|x y l|l l' l'' HP1 IH1 HP2 IH2]; intros HF c.
-  - reflexivity.
-  - cbn [fold_left]. apply IH. inversion HF; assumption.
-  - cbn [fold_left]. inversion HF as [|a1 l1 Hy HF1]; subst. inversion HF1 as [|a2 l2 Hx HF2]; subst.
-    rewrite (update_comm_nobool c y x Hy Hx). reflexivity.
-  - rewrite (IH1 HF c). apply IH2.
-    apply Forall_forall. intros w Hin. rewrite Forall_forall in HF. apply HF.
-    apply (Permutation_in w (Permutation_sym HP1)). exact Hin.
+  intros g. induction cs as [|c cs IH]; intros fs j Hl Hj; [cbn [length] in Hj; lia|].
+  destruct fs as [|f fs]; [discriminate Hl|]. cbn [zip_row]. destruct j as [|j]; [reflexivity|].
+  cbn [nth]. apply IH; cbn [length] in *; lia.
 Qed.
 
-Theorem candidate_order_irrelevant_partial : forall vs1 vs2,
-  Permutation vs1 vs2 -> Forall (fun v => is_bool v = false) vs1 ->
-  col_cand vs1 = col_cand vs2.
+Lemma fold_zip_row_length : forall g rows cs, length (fold_left (zip_row g) rows cs) = length cs.
 Proof.
-  intros vs1 vs2 HP HF. unfold col_cand. apply fold_update_perm; assumption.
+  intros g. induction rows as [|r rows IH]; intros cs; [reflexivity|].
+  cbn [fold_left]. rewrite IH. apply zip_row_length.
 Qed.
+
+Lemma fold_zip_row_nth : forall g rows cs j,
+  Forall (fun r => length r = length cs) rows -> (j < length cs)%nat ->
+  nth j (fold_left (zip_row g) rows cs) CUtf8 = fold_left g (map (fun r => nth j r []) rows) (nth j cs CUtf8).
+Proof.
+  intros g. induction rows as [|r rows IH]; intros cs j HF Hj; [reflexivity|].
+  inversion HF as [|x l Hr Hrest]; subst. cbn [fold_left map].
+  rewrite IH.
+  - rewrite zip_row_nth by assumption. reflexivity.
+  - rewrite zip_row_length. exact Hrest.
+  - rewrite zip_row_length. exact Hj.
+Qed.
+
+Lemma nth_repeat_lt : forall (c dflt : cand) n j, (j < n)%nat -> nth j (repeat c n) dflt = c.
+Proof.
+  intros c dflt. induction n as [|n IH]; intros j Hj; [lia|].
+  cbn [repeat]. destruct j as [|j]; [reflexivity|]. cbn [nth]. apply IH. lia.
+Qed.
+
+(* on a rectangular sample, column j of the inferred schema is col_type of the j-th fields of the rows after the
+   first: the column-level theorems above are theorems about infer_schema *)
+Theorem schema_column_type : forall first rest s j,
+  infer_schema (first :: rest) = Some s ->
+  Forall (fun r => length r = length first) rest -> (j < length first)%nat ->
+  nth j (col_types s) CUtf8 = col_type (map (fun r => nth j r []) rest).
+Proof.
+  intros first rest s j H HF Hj. unfold infer_schema in H. inversion H as [Hs]. clear H. cbn [col_types].
+  unfold revalidate_row, update_row, col_type.
+  assert (HF0 : Forall (fun r => length r = length (repeat CBool (length first))) rest).
+  { rewrite repeat_length. exact HF. }
+  rewrite fold_zip_row_nth.
+  - rewrite fold_zip_row_nth; [|exact HF0|rewrite repeat_length; exact Hj].
+    rewrite nth_repeat_lt by exact Hj. reflexivity.
+  - rewrite fold_zip_row_length. exact HF0.
+  - rewrite fold_zip_row_length, repeat_length. exact Hj.
+Qed.
+
+Example schema_column_type_sat :
+  exists s, infer_schema [[[97]; [98]]; [[116]; [49]]; [[49]; [50]]]%N = Some s /\ col_types s = [CUtf8; CInt].
+Proof. eexists. split; reflexivity. Qed.
 
 (* ------------------------------------------------------------------ (4) the dialect choice *)
 (* d parses the sample into at least two records, all with the same n >= 2 fields *)
-Definition qualifies (sample : list N) (d : dialect) (n : nat) : Prop :=
-  exists r0 r1 tl, run_dfa d sample = Some (r0 :: r1 :: tl) /\
+Definition qualifies (sample : list N) (eof : bool) (d : dialect) (n : nat) : Prop :=
+  exists r0 r1 tl, run_sample d eof sample = Some (r0 :: r1 :: tl) /\
     length r0 = n /\ (2 <= n)%nat /\ Forall (fun r => length r = n) (r0 :: r1 :: tl).
 
 Lemma forallb_len_Forall : forall n (recs : list (list (list N))),
@@ -264,20 +311,20 @@ Proof.
   - apply Nat.eqb_eq. apply H. exact Hin.
 Qed.
 
-Lemma try_dialect_spec : forall sample b k d b' k',
-  try_dialect sample (b, k) d = Some (b', k') ->
-  (b' = b /\ k' = k /\ forall n, qualifies sample d n -> (n <= k)%nat) \/
-  (b' = Some d /\ qualifies sample d k' /\ (k < k')%nat).
+Lemma try_dialect_spec : forall sample eof b k d b' k',
+  try_dialect sample eof (b, k) d = Some (b', k') ->
+  (b' = b /\ k' = k /\ forall n, qualifies sample eof d n -> (n <= k)%nat) \/
+  (b' = Some d /\ qualifies sample eof d k' /\ (k < k')%nat).
 Proof.
-  intros sample b k d b' k' H. unfold try_dialect in H.
-  destruct (run_dfa d sample) as [recs|] eqn:Hr; [|discriminate H].
+  intros sample eof b k d b' k' H. unfold try_dialect in H.
+  destruct (run_sample d eof sample) as [recs|] eqn:Hr; [|discriminate H].
   destruct recs as [|r0 [|r1 tl]].
   - left. injection H as H1 H2. subst. split; [reflexivity|]. split; [reflexivity|].
     intros n [q0 [q1 [qt [Hq _]]]]. rewrite Hr in Hq. discriminate Hq.
   - left. injection H as H1 H2. subst. split; [reflexivity|]. split; [reflexivity|].
     intros n [q0 [q1 [qt [Hq _]]]]. rewrite Hr in Hq. discriminate Hq.
   - cbn [snd] in H.
-    assert (Hq : forall n, qualifies sample d n ->
+    assert (Hq : forall n, qualifies sample eof d n ->
               n = length r0 /\ (2 <= n)%nat /\ Forall (fun r => length r = n) (r0 :: r1 :: tl)).
     { intros n [q0 [q1 [qt [Hq [Hl [H2 HF]]]]]]. rewrite Hr in Hq. injection Hq as E0 E1 Et. subst.
       split; [reflexivity|]. split; assumption. }
@@ -299,21 +346,21 @@ Qed.
 
 (* the loop: the final field count bounds every qualifying dialect of the list; either nothing changed,
    or the result is the first dialect of the list that reaches the final count *)
-Lemma infer_loop_spec : forall sample ds b k res m,
-  infer_loop sample ds (b, k) = Some (res, m) ->
+Lemma infer_loop_spec : forall sample eof ds b k res m,
+  infer_loop sample eof ds (b, k) = Some (res, m) ->
   (k <= m)%nat /\
-  (forall d' n', In d' ds -> qualifies sample d' n' -> (n' <= m)%nat) /\
+  (forall d' n', In d' ds -> qualifies sample eof d' n' -> (n' <= m)%nat) /\
   ((res = b /\ m = k) \/
-   (exists l1 d l2, ds = l1 ++ d :: l2 /\ res = Some d /\ qualifies sample d m /\ (k < m)%nat /\
-      forall d' n', In d' l1 -> qualifies sample d' n' -> (n' < m)%nat)).
+   (exists l1 d l2, ds = l1 ++ d :: l2 /\ res = Some d /\ qualifies sample eof d m /\ (k < m)%nat /\
+      forall d' n', In d' l1 -> qualifies sample eof d' n' -> (n' < m)%nat)).
 Proof.
-  intros sample ds. induction ds as [|d ds IH]; intros b k res m H.
+  intros sample eof ds. induction ds as [|d ds IH]; intros b k res m H.
   - cbn [infer_loop] in H. injection H as H1 H2. subst.
     split; [lia|]. split; [intros d' n' []|]. left. split; reflexivity.
   - cbn [infer_loop] in H.
-    destruct (try_dialect sample (b, k) d) as [[b1 k1]|] eqn:Ht; [|discriminate H].
+    destruct (try_dialect sample eof (b, k) d) as [[b1 k1]|] eqn:Ht; [|discriminate H].
     destruct (IH b1 k1 res m H) as [Hle [Hmax Hres]].
-    destruct (try_dialect_spec _ _ _ _ _ _ Ht) as [[Eb [Ek Hd]]|[Eb [Hqd Hlt]]].
+    destruct (try_dialect_spec _ _ _ _ _ _ _ Ht) as [[Eb [Ek Hd]]|[Eb [Hqd Hlt]]].
     + subst b1 k1. split; [exact Hle|]. split.
       * intros d' n' [Hin|Hin] Hq; [subst d'; specialize (Hd n' Hq); lia|exact (Hmax d' n' Hin Hq)].
       * destruct Hres as [Hres|[l1 [d0 [l2 [Eds [Er [Hq0 [Hk0 Hfirst]]]]]]]]; [left; exact Hres|].
@@ -334,49 +381,49 @@ Proof.
            destruct Hqd as [p0 [p1 [pt [Hp [Hpl _]]]]]. rewrite Hq in Hp. injection Hp as E0 E1 Et. subst. lia.
 Qed.
 
-Theorem dialect_choice_spec : forall sample d,
-  infer_dialect sample = Some (Some d) ->
+Theorem dialect_choice_spec : forall sample eof d,
+  infer_dialect sample eof = Some (Some d) ->
   exists n l1 l2,
     dialects = l1 ++ d :: l2 /\                       (* d is one of the eight dialects ... *)
-    qualifies sample d n /\                           (* ... it parses >= 2 records of n >= 2 fields each ... *)
-    (forall d' n', In d' dialects -> qualifies sample d' n' -> (n' <= n)%nat) /\   (* ... n is the maximum ... *)
-    (forall d' n', In d' l1 -> qualifies sample d' n' -> (n' < n)%nat).           (* ... d is the first to reach it *)
+    qualifies sample eof d n /\                           (* ... it parses >= 2 records of n >= 2 fields each ... *)
+    (forall d' n', In d' dialects -> qualifies sample eof d' n' -> (n' <= n)%nat) /\   (* ... n is the maximum ... *)
+    (forall d' n', In d' l1 -> qualifies sample eof d' n' -> (n' < n)%nat).           (* ... d is the first to reach it *)
 Proof.
-  intros sample d H. unfold infer_dialect in H.
-  destruct (infer_loop sample dialects (None, 0%nat)) as [[res m]|] eqn:Hl; [|discriminate H].
+  intros sample eof d H. unfold infer_dialect in H.
+  destruct (infer_loop sample eof dialects (None, 0%nat)) as [[res m]|] eqn:Hl; [|discriminate H].
   cbn [option_map fst] in H. injection H as H. subst res.
-  destruct (infer_loop_spec _ _ _ _ _ _ Hl) as [_ [Hmax [[Er _]|[l1 [d0 [l2 [Eds [Er [Hq [_ Hfirst]]]]]]]]]].
+  destruct (infer_loop_spec _ _ _ _ _ _ _ Hl) as [_ [Hmax [[Er _]|[l1 [d0 [l2 [Eds [Er [Hq [_ Hfirst]]]]]]]]]].
   - discriminate Er.
   - injection Er as Er. subst d0. exists m, l1, l2.
     split; [exact Eds|]. split; [exact Hq|]. split; [exact Hmax|exact Hfirst].
 Qed.
 
-Corollary dialect_choice_in : forall sample d,
-  infer_dialect sample = Some (Some d) -> In d dialects.
+Corollary dialect_choice_in : forall sample eof d,
+  infer_dialect sample eof = Some (Some d) -> In d dialects.
 Proof.
-  intros sample d H. destruct (dialect_choice_spec sample d H) as [n [l1 [l2 [E _]]]].
+  intros sample eof d H. destruct (dialect_choice_spec sample eof d H) as [n [l1 [l2 [E _]]]].
   rewrite E. apply in_or_app. right. left. reflexivity.
 Qed.
 
 (* conversely: no dialect found means no dialect of the list qualifies (when no parse panics) *)
-Theorem dialect_none_spec : forall sample,
-  infer_dialect sample = Some None ->
-  forall d' n', In d' dialects -> qualifies sample d' n' -> False.
+Theorem dialect_none_spec : forall sample eof,
+  infer_dialect sample eof = Some None ->
+  forall d' n', In d' dialects -> qualifies sample eof d' n' -> False.
 Proof.
-  intros sample H d' n' Hin Hq. unfold infer_dialect in H.
-  destruct (infer_loop sample dialects (None, 0%nat)) as [[res m]|] eqn:Hl; [|discriminate H].
+  intros sample eof H d' n' Hin Hq. unfold infer_dialect in H.
+  destruct (infer_loop sample eof dialects (None, 0%nat)) as [[res m]|] eqn:Hl; [|discriminate H].
   cbn [option_map fst] in H. injection H as H. subst res.
-  destruct (infer_loop_spec _ _ _ _ _ _ Hl) as [_ [Hmax [[_ Em]|[l1 [d0 [l2 [_ [Er _]]]]]]]].
+  destruct (infer_loop_spec _ _ _ _ _ _ _ Hl) as [_ [Hmax [[_ Em]|[l1 [d0 [l2 [_ [Er _]]]]]]]].
   - subst m. specialize (Hmax d' n' Hin Hq). destruct Hq as [_ [_ [_ [_ [_ [H2 _]]]]]]. lia.
   - discriminate Er.
 Qed.
 
 Print Assumptions int_is_float.
-Print Assumptions candidate_is_narrowest_strong.
-Print Assumptions candidate_is_narrowest_partial.
-Print Assumptions candidate_all_empty.
+Print Assumptions bool_not_number.
+Print Assumptions candidate_is_narrowest.
+Print Assumptions candidate_order_irrelevant.
 Print Assumptions candidate_all_bool.
-Print Assumptions candidate_order_irrelevant_partial.
+Print Assumptions schema_column_type.
 Print Assumptions dialect_choice_spec.
 Print Assumptions dialect_choice_in.
 Print Assumptions dialect_none_spec.
